@@ -91,7 +91,7 @@ class Readout:
 
         if self._times[0] == 0:
             raise ValueError("Readout times should be non-zero values.")
-        elif start_time >= self._times[0]:
+        elif not (start_time < self._times[0]):
             raise ValueError("Readout times should be greater than start time.")
 
         if not np.all(np.diff(self._times) > 0):
@@ -127,7 +127,7 @@ class Readout:
     @start_time.setter
     def start_time(self, value: float) -> None:
         """Set start time of the readout."""
-        if value >= self._times[0]:
+        if not (value < self._times[0]):
             raise ValueError("Readout times should be greater than start time.")
         self._start_time = value
         self._set_steps()
@@ -159,7 +159,7 @@ class Readout:
         if values[0] == 0:
             raise ValueError("Readout times should be non-zero values.")
 
-        elif self._start_time >= values[0]:
+        elif not (self._start_time < values[0]):
             raise ValueError("Readout times should be greater than start time.")
 
         self._times = values
